@@ -54,3 +54,28 @@ CHECKS["C08"] = {
     "assumptions": ["the dump hook reads the index under the index's own locks"],
     "min": {"any": {"loads_checked": 5000}},
 }
+
+CHECKS["C02"] = {
+    "pkg": "./c02", "run": "^TestC02$", "level": "exploration",
+    "technique": "runtime monitor: sequential map model vs delivered outcome, Get, Len, byte counters and full dump after every applied partition change (stand-alone real partition state machine)",
+    "level_text": "Model-based monitor over thousands (quick) to hundreds of thousands (thorough) of seeded logs of all six change kinds on the real partition apply code: per entry it compares the delivered outcome (per item for batches), the contents, Get for every id of the universe, Len, the raw byte counter, the public BytesSize range, and that a failed single operation left the whole dump unchanged.",
+    "level_note": "Sequential application only (concurrency is C13); default HNSW parameters inside the partition as in production; ids repeated inside one batch are compared only on error identity (mixed outcome allowed).",
+    "shards": {"quick": 8, "thorough": 16},
+    "timeout": {"quick": 600, "thorough": 3000},
+    "rule": "case c = log of 10..40 entries over a 4..12-id universe (insert/update/delete and their batch forms with 1..5 items, duplicates inside a batch, metadata nil/empty/empty strings/overlapping keys), dim 1..6, 3 metrics; non-trivial = >=1 failed single operation (dump compared before/after) and >=3 successful entries; distinct = digest of the log",
+    "assumptions": ["outcome is captured through the partition's own notificator under the entry's notification id (hook VerifCreateWithId)"],
+    "min": {"any": {"entries_applied": 20000, "failed_single_ops_checked": 1000}},
+}
+
+CHECKS["C04"] = {
+    "pkg": "./c04", "run": "^TestC04$", "level": "exploration",
+    "technique": "runtime monitor: content equality and per-entry outcome equality of real partition state machines fed byte-identical logs, with snapshot/restore at every cut point",
+    "level_text": "Differential monitor on the real partition apply/snapshot/restore code: replicas fed byte-identical entries are compared on contents and per-entry outcomes with each other and with a sequential map, for apply-all and for snapshot-at-cut + restore (into a fresh replica, into a used/diverged replica, twice) + replay of the rest. For logs of up to 40 entries every cut point 0..len is taken (exhaustive over cuts per log).",
+    "level_note": "Logs are sampled; cuts are exhaustive only for logs <= 40 entries (16 sampled cuts for the long logs); graph shape, levels and links are deliberately not compared (legitimately non-deterministic).",
+    "shards": {"quick": 8, "thorough": 16},
+    "timeout": {"quick": 600, "thorough": 3000},
+    "exhaustive": "cut points 0..len for every log of <= 40 entries",
+    "rule": "case c = log of 5..40 entries (thorough also 200..2000) of all six change kinds over a small id universe with arbitrary metadata; every cut point x {fresh, used, restore-twice} targets; non-trivial = >=3 change kinds in the log and >=3 cuts checked; distinct = digest of the log",
+    "assumptions": ["a replica's outcome is observed through its own notificator under the entry's notification id"],
+    "min": {"any": {"restores_checked": 5000, "cuts_on_empty_index": 20}},
+}
